@@ -12,7 +12,6 @@ PROP = {
         'HashMap iteration order inside SlotMap::from_ranges is arbitrary: theorems are stated for every '
         'visiting order; the harness resolves the order the implementation used by probing each overlap '
         'segment and the model must agree on every other slot',
-        'release arithmetic (overflow-checks off) for `3 + numkeys` in handle_multi_key_eval_cmd',
     ],
     'gaps': [
         'C09_multikey_partial covers the commands the proxy handles as multi-key (MGET, MSET, MSETNX, DEL/EXISTS '
